@@ -561,7 +561,9 @@ impl Program {
             v.sort_by_key(|(u, _)| *u);
             v
         };
-        let mut offset: u8 = if self.right_boundary_char.is_some() {
+        // The number of entrypoint redirects, which is at most 256 (one for each character;
+        // the boundary char is carried by the first of them) and thus doesn't fit in a u8.
+        let mut offset: u16 = if self.right_boundary_char.is_some() {
             // In .tfm files the boundary char is transmitted in each entrypoint redirect instruction.
             // If there is a boundary char, we need at least one entrypoint redirect to exist so
             // that the boundary char is there.
@@ -577,7 +579,7 @@ impl Program {
         let mut new_entrypoints: HashMap<Char, u8> = Default::default();
         let mut redirects: Vec<u16> = vec![];
         for (i, (u16_entrypoint, chars)) in ordered_entrypoints.into_iter().rev().enumerate() {
-            let u: u8 = match (u16_entrypoint + offset as u16).try_into() {
+            let u: u8 = match (u16_entrypoint + offset).try_into() {
                 Ok(u) => u,
                 Err(_) => {
                     redirects.push(u16_entrypoint);
@@ -586,10 +588,10 @@ impl Program {
                         instructions.pop();
                         offset = 0;
                     }
-                    let u = offset;
-                    offset = offset.checked_add(1).expect(
-                        "offset is incremented at most once per 8-bit-char and so cannot exceed 256",
+                    let u: u8 = offset.try_into().expect(
+                        "offset is incremented at most once per 8-bit-char and so is at most 255 here",
                     );
+                    offset += 1;
                     u
                 }
             };
@@ -602,7 +604,7 @@ impl Program {
             next_instruction: None,
             right_char: self.right_boundary_char.unwrap_or(Char(0)),
             operation: Operation::EntrypointRedirect(
-                redirect.checked_add(offset as u16).expect("the inputted lig/kern instructions vector doesn't have enough space for new instructions"),
+                redirect.checked_add(offset).expect("the inputted lig/kern instructions vector doesn't have enough space for new instructions"),
             true,
         ),
         });
@@ -613,7 +615,7 @@ impl Program {
                 next_instruction: None,
                 right_char: Char(0),
                 operation: Operation::EntrypointRedirect(
-                    boundary_char_entrypoint + offset as u16,
+                    boundary_char_entrypoint + offset,
                     false,
                 ),
             })
